@@ -4,7 +4,7 @@ import os
 import appcommon, apporacles
 
 
-def gov_under_readonly_traffic(v, out, hists, cov):
+def gov_under_readonly_traffic(v, out, hists, cov, a=None, res=None):
     byid = {h["id"]: h for h in hists}
     n = bad = 0
     for l in open(os.path.join(out, "app.det")):
